@@ -240,3 +240,103 @@ func simplifyWide(w *Workload, c any) []func() any {
 	}
 	return out
 }
+
+// ---------------------------------------------------------------- counted gaps
+//
+// "The number of calls, matches or next statements executed so far never
+// changes later behaviour": a function is called, an exactly counted number of
+// other frames is pushed and popped (calls, matches with expression and block
+// bodies, next inside a function, nested calls), and the function is called
+// again. The counts sit around powers of two, where counters, ids and tables
+// of any fixed width wrap.
+
+type GapCase struct {
+	Filler int `json:"filler"` // 0 call, 1 match with an expression body, 2 match with a block body, 3 next inside a function, 4 a call inside a call, 5 mixed
+	K      int `json:"k"`      // number of filler elements
+	Seed   int `json:"seed"`   // mixed fillers: drawn from this
+}
+
+const gapProgram = `function first(p) { return p }
+function pickm(v) { return match (v) { [ga, gb] => ga } }
+function pickb(v) { match (v) { [gc, gd] => { return gc } }
+ return "none" }
+function nop() { }
+function two() { nop() }
+function fnext() { next }
+BEGIN { print "B", first("old"), pickm(["oldm", 1]), pickb(["oldb", 1]) }
+$ == 0 { nop() }
+$ == 1 { gx = match ($) { fm => fm } }
+$ == 2 { match ($) { fq => { gy = fq } } }
+$ == 3 { fnext() }
+$ == 4 { two() }
+END { print "E", first("new"), pickm(["newm", 2]), pickb(["newb", 2]), p is unknown, v is unknown, ga is unknown, gb is unknown, gc is unknown, gd is unknown, fm is unknown, fq is unknown }
+`
+
+func (c *GapCase) input() []byte {
+	var sb strings.Builder
+	sb.Grow(2*c.K + 2)
+	sb.WriteByte('[')
+	var t *Tape
+	if c.Filler >= 5 {
+		t = NewTape(uint64(c.Seed))
+	}
+	for i := 0; i < c.K; i++ {
+		if i > 0 {
+			sb.WriteByte(',')
+		}
+		f := c.Filler
+		if t != nil {
+			f = t.Draw(5)
+		}
+		sb.WriteByte(byte('0' + f))
+	}
+	sb.WriteByte(']')
+	return []byte(sb.String())
+}
+
+func runGapCase(c *GapCase, keep bool) Outcome {
+	log := newEventLog(keep)
+	o := Outcome{Probes: map[string]int{}}
+	kind, msg, stdout, depth := execCall(gapProgram, c.input())
+	log.add('C', 0, "RUN filler=%d k=%d kind=%s msg=%q depth=%d stdout=%q", c.Filler, c.K, kind, msg, depth, truncate(stdout, 300))
+	o.Nontrivial = c.K > 0
+	o.Steps = c.K
+	o.Shape = fmt.Sprintf("gap f%d k%d", c.Filler, c.K)
+	o.Probes["frames_between_two_calls"] += c.K
+	finish := func() Outcome {
+		o.LogHash, o.Log = log.Hash(), log.lines
+		return o
+	}
+	if kind == "panic" || kind == "foreign" {
+		o.Class, o.Msg = "panic", kind+": "+msg
+		return finish()
+	}
+	if kind != "success" {
+		o.Class, o.Msg = "history-killed-run", fmt.Sprintf("%d completed filler operations ended in %s: %s", c.K, kind, msg)
+		return finish()
+	}
+	want := "B old oldm oldb\nE new newm newb true true true true true true true true\n"
+	if stdout != want {
+		o.Class = "call-result-mismatch"
+		o.Msg = fmt.Sprintf("with %d completed operations (filler kind %d) between the two calls:\n expected %q\n observed %q", c.K, c.Filler, want, stdout)
+	}
+	if depth != 0 && o.Class == "" {
+		o.Class, o.Msg = "frame-residue", fmt.Sprintf("after a normally completed run the frame stack is %d deep", depth)
+	}
+	return finish()
+}
+
+var gapPowers = []int{8, 12, 15, 16, 17}
+
+func genGapCase(i int, t *Tape, tier string) *GapCase {
+	if tier == "quick" {
+		// enumerated: 5 powers x offsets -8..8 x 6 fillers = 510
+		p := gapPowers[i%5]
+		d := (i/5)%17 - 8
+		f := (i / 85) % 6
+		return &GapCase{Filler: f, K: (1 << uint(p)) + d, Seed: i}
+	}
+	p := 7 + t.Draw(12)
+	d := t.Draw(81) - 40
+	return &GapCase{Filler: t.Draw(6), K: (1 << uint(p)) + d, Seed: t.Draw(1 << 30)}
+}
